@@ -100,6 +100,7 @@ class DAGRunConcurrentManager(DAGRunManagerLike):
     _memorization_store: t.Dict[t.Any, t.Any] = field(default_factory=dict)
     _coro_tasks: t.Set[asyncio.Task] = field(default_factory=set)
     _additional_data: t.Dict[NodeId, t.Any] = field(default_factory=dict)
+    _started_oneof_children: t.Set[NodeId] = field(default_factory=set)
     _alias_run_method: str = 'run'
 
     def __post_init__(self) -> None:
@@ -267,10 +268,12 @@ class DAGRunConcurrentManager(DAGRunManagerLike):
             Args:
                 u -  Node
             """
-            return not self.dag.graph.nodes[u].get(NodeField.is_oneof_child)
+            return not self.dag.graph.nodes[u].get(NodeField.is_oneof_child) or u in self._started_oneof_children
 
         if is_oneof:
-            self.dag.graph.nodes[dest][NodeField.is_oneof_child] = False
+            # The graph is shared between runs, hence the fact that the OneOf child has been started
+            # is kept in the run manager
+            self._started_oneof_children.add(dest)
 
         return get_connected_subgraph(
             dag=nx.subgraph_view(self.dag.graph, filter_edge=_filter, filter_node=_filter_node),
